@@ -27,6 +27,7 @@ def run(rep):
     R.ghost_and_axes(rep)
     R.restart_selection(rep)
     R.iteration_labels(rep)
+    R.independent_lists(rep)
     R.cache_fill_provenance(rep)
     R.name_maps(rep)
     R.definite_assignment(rep, ["reading.py"], only=R.SCOPE["C11"])
